@@ -55,9 +55,10 @@ func callAccessorMB(b *redact.ManualBuffer, acc int) {
 
 // H_c13: accessor purity and Reset/Take pristineness.
 // p = [variant, which, pos, n, op1, op2, ...]
-//  variant 0: StringBuilder, accessor `which` called after `pos` ops on copy 1 only
-//  variant 1: StringBuilder, Reset(0)/TakeRedactableString(1)/TakeRedactableBytes(2) after pos ops, rest vs fresh
-//  variant 2, 3: same on a ManualBuffer
+//
+//	variant 0: StringBuilder, accessor `which` called after `pos` ops on copy 1 only
+//	variant 1: StringBuilder, Reset(0)/TakeRedactableString(1)/TakeRedactableBytes(2) after pos ops, rest vs fresh
+//	variant 2, 3: same on a ManualBuffer
 func H_c13(p []int) {
 	variant, which, pos, n := p[0], p[1], p[2], p[3]
 	codes := p[4:]
